@@ -21,7 +21,7 @@ LEVEL_TEXT = ("Sequences of up to 40 actions drive one bridge object through sta
               "returned. 'Never' is checked up to the point where the port is provably released. Sequences are sampled and shrunk.")
 RULE = ("case = number of ports + step list; non-trivial = contains a restart, a failed start on a port index > 0, or a send around "
         "a stop; distinct by (ports, steps)."
-        ' Further actions: a second bridge object started on the same ports (rival_start), start with the file-descriptor limit lowered so that a later port fails with EMFILE (start_fd_exhausted), 0..4 loop turns between queued datagrams and stop(), context exit with an exception.')
+        ' The ports are handed to the bridge as a list or a tuple. Further actions: idle (1 s .. 25 h of event-loop time under the harness-owned loop clock), new_loop (the event loop is closed and a new one made while the bridge is stopped; the bridge object is kept), a second bridge object started on the same ports (rival_start), start with the file-descriptor limit lowered so that a later port fails with EMFILE (start_fd_exhausted), 0..4 loop turns between queued datagrams and stop(), context exit with an exception.')
 ASSUMPTIONS = [
     "start() while already running is undocumented and not generated",
     "a port is 'released' when a UDP socket without SO_REUSEADDR can bind 0.0.0.0:port after two event-loop cycles",
@@ -41,11 +41,12 @@ def bindable(port):
 
 
 class BridgeSys:
-    def __init__(self, nports):
+    def __init__(self, nports, container="list"):
         self.nports = nports
+        self.container = container
         self.rig = udptx.Rig(nports)
         self.ports = self.rig.ports
-        self.bridge = self.rig.make_bridge()
+        self.bridge = self.rig.make_bridge(container=container)
         self.running = False
         self.occupied = {}
         self.trace = []
@@ -57,7 +58,7 @@ class BridgeSys:
         self.rig.observe()
 
     def case(self):
-        return {"ports": self.nports, "steps": list(self.trace)}
+        return dict({"ports": self.nports, "steps": list(self.trace)}, **({"container": self.container} if self.container != "list" else {}))
 
     def fail(self, sig, expected, observed):
         raise Violation(f"C17/{sig}", self.case(), expected, observed)
@@ -70,7 +71,17 @@ class BridgeSys:
     def apply(self, step):
         self.trace.append(step)
         try:
-            net.run(self._apply(step), timeout=60)
+            if step["action"] == "new_loop":
+                # the program's event loop is closed and another one made (asyncio.run() twice); the stopped bridge object
+                # is kept and must be startable on the new loop
+                async def leave_old():
+                    self.rig.unobserve()
+                net.run(leave_old())
+                net.new_loop()
+                net.run(self._observe())
+                net.run(self._invariants(step), timeout=60)
+                return
+            net.run(self._apply(step), timeout=60 + 2 * step.get("secs", 0))
             net.run(self._invariants(step), timeout=60)
         except asyncio.TimeoutError:
             self.fail(f"step-hangs/{step['action']}", "step completes", "no completion within 60 s")
@@ -244,6 +255,8 @@ class BridgeSys:
         elif a == "cycle":
             for _ in range(step.get("n", 2)):
                 await asyncio.sleep(0)
+        elif a == "idle":
+            await net.idle(step["secs"])         # event-loop time passes under the harness-owned clock
         else:
             raise KeyError(a)
 
@@ -311,7 +324,7 @@ def nontrivial(steps):
 
 
 def body(rep, case):
-    sysm = BridgeSys(case["ports"])
+    sysm = BridgeSys(case["ports"], case.get("container", "list"))
     try:
         rep.tick(f"ports={case['ports']}", key=case, nontrivial=nontrivial(case["steps"]), sample=case)
         for step in case["steps"]:
@@ -329,14 +342,16 @@ def machine_factory(nports):
         class Machine(RuleBasedStateMachine):
             def __init__(self):
                 super().__init__()
-                self.sys = BridgeSys(nports)
+                self.sys = None
                 self.dead = [False]
 
             def do(self, step):
                 machine_guard(rep, new, sub_name, self.dead, lambda: self.sys.apply(step), self.sys.case, ctl)
 
-            @initialize(begin=st.sampled_from(["nothing", "start", "start", "enter", "occupy-then-start"]), port=st.integers(0, nports - 1))
-            def begin(self, begin, port):
+            @initialize(begin=st.sampled_from(["nothing", "start", "start", "enter", "occupy-then-start"]), port=st.integers(0, nports - 1),
+                        container=st.sampled_from(["list", "list", "tuple"]))
+            def begin(self, begin, port, container):
+                self.sys = BridgeSys(nports, container)
                 # most histories should get the bridge going early, some with a port already taken
                 if begin == "occupy-then-start":
                     self.do({"action": "occupy", "port": port})
@@ -387,10 +402,21 @@ def machine_factory(nports):
             def cycle(self, n):
                 self.do({"action": "cycle", "n": n})
 
+            @rule(secs=st.sampled_from([1, 61, 301, 3601, 90_000]))
+            def idle(self, secs):
+                self.do({"action": "idle", "secs": secs})
+
+            @precondition(lambda self: not self.sys.running and not self.sys.occupied)
+            @rule()
+            def new_loop(self):
+                self.do({"action": "new_loop"})
+
             def teardown(self):
+                if self.sys is None:
+                    return
                 steps = self.sys.trace
-                rep.tick(sub_name, key=(nports, steps), nontrivial=nontrivial(steps), sample={"ports": nports, "steps": steps},
-                         labels=tuple(sorted({"has-" + s["action"] for s in steps})))
+                rep.tick(sub_name, key=(nports, self.sys.container, steps), nontrivial=nontrivial(steps), sample=self.sys.case(),
+                         labels=tuple(sorted({"has-" + s["action"] for s in steps})) + (f"ports-as-{self.sys.container}",))
                 self.sys.close()
 
         Machine.__name__ = f"C17Ports{nports}"
